@@ -84,11 +84,61 @@ def codec (toks : List String) : Option String :=
     pure (tokOfBytes (MP.w1Encode (← bits.toNat?) (← polys.mapM natList?)))
   | _ => none
 
+/-! sampling layer (FIPS 204 §7.3), straight from the reference:
+    `rejntt ρ32 s r` → 256 coefficients of RejNTTPoly(ρ ‖ s ‖ r) (s, r one byte each: Â[r][s] of ExpandA) ·
+    `rejbounded η ρ′64 r` → RejBoundedPoly(ρ′ ‖ IntegerToBytes(r, 2)), residues mod q ·
+    `sampleinball set c̃` → SampleInBall with the set's τ, residues mod q ·
+    `expandmask set ρ″64 κ` → the l polynomials of ExpandMask(ρ″, κ), residues mod q, one token each (κ + l ≤ 65536) ·
+    `c3b b0 b1 b2` → CoeffFromThreeBytes: `ok z` | `reject` ·  `chb η b` → CoeffFromHalfByte: `ok z` | `reject` -/
+def showPoly (w : Array Nat) : String := showNatList w.toList
+
+def sampling (toks : List String) : Option String :=
+  match toks with
+  | ["rejntt", rho, s, r] => do
+    let rho ← bytesOfTok? rho
+    let s ← s.toNat?
+    let r ← r.toNat?
+    if rho.length != 32 || s ≥ 256 || r ≥ 256 then none
+    pure (showPoly (rejNTTPoly (ba rho ++ integerToBytes s 1 ++ integerToBytes r 1)))
+  | ["rejbounded", eta, rho, r] => do
+    let rho ← bytesOfTok? rho
+    let eta ← eta.toNat?
+    let r ← r.toNat?
+    if rho.length != 64 || r ≥ 65536 || !(eta == 2 || eta == 4) then none
+    pure (showPoly (rejBoundedPoly eta (ba rho ++ integerToBytes r 2)))
+  | ["sampleinball", set, ct] => do
+    let p ← params? set
+    pure (showPoly (sampleInBall p.tau (ba (← bytesOfTok? ct))))
+  | ["expandmask", set, rho, kappa] => do
+    let p ← params? set
+    let rho ← bytesOfTok? rho
+    let kappa ← kappa.toNat?
+    if rho.length != 64 || kappa + p.l > 65536 then none
+    pure (" ".intercalate ((expandMask p (ba rho) kappa).toList.map showPoly))
+  | ["c3b", b0, b1, b2] => do
+    let b0 ← b0.toNat?
+    let b1 ← b1.toNat?
+    let b2 ← b2.toNat?
+    if b0 ≥ 256 || b1 ≥ 256 || b2 ≥ 256 then none
+    match coeffFromThreeBytes (UInt8.ofNat b0) (UInt8.ofNat b1) (UInt8.ofNat b2) with
+    | some z => pure s!"ok {z}"
+    | none => pure "reject"
+  | ["chb", eta, b] => do
+    let eta ← eta.toNat?
+    let b ← b.toNat?
+    if b ≥ 16 || !(eta == 2 || eta == 4) then none
+    match coeffFromHalfByte eta b with
+    | some z => pure s!"ok {z}"
+    | none => pure "reject"
+  | _ => none
+
 def handle (toks : List String) : Option String :=
   match toks with
   | "s" :: rest => scalar rest
   | "spack" :: _ | "sunpack" :: _ | "bpack" :: _ | "bunpack" :: _ | "hpack" :: _ | "hunpack" :: _ | "w1enc" :: _ =>
     codec toks
+  | "rejntt" :: _ | "rejbounded" :: _ | "sampleinball" :: _ | "expandmask" :: _ | "c3b" :: _ | "chb" :: _ =>
+    sampling toks
   | ["keygen", set, seed] => do
     let p ← params? set
     let (pk, sk) := keyGenInternal p (ba (← bytesOfTok? seed))
